@@ -91,6 +91,8 @@ class CallMixin:
             return VBool(z3.Exists([c], z3.And(rng, *(new + [body]))))
         if name == "implies":
             a = self.to_bool(self.ev(node.args[0], st))
+            if smt.conc_bool(a) is False:
+                return VBool(True)
             b = self.to_bool(self.ev_under(node.args[1], st, a))
             return VBool(z3.Implies(a, b))
         if name == "iff":
@@ -110,6 +112,7 @@ class CallMixin:
             return self.ev(node.args[0], sub)
         if name == "len":
             v = self.ev(node.args[0], st)
+            self._len_state = st
             return self.len_of(v, line)
         if name == "bits":  # bits(byte, shift, width) on a bv8 -> bv8
             b = self.ev(node.args[0], st)
@@ -156,6 +159,9 @@ class CallMixin:
             return self.specs[name].apply(self, st, args, line)
         return None
 
+    def cur_state_objs(self, v):
+        return self._len_state.objs[v.oid]
+
     def len_of(self, v, line=0):
         if isinstance(v, VArr):
             return VInt(v.n)
@@ -173,6 +179,10 @@ class CallMixin:
             return VInt(len(v.s)) if v.s is not None else VInt(z3.Length(v.t))
         if isinstance(v, VOpaqueBuf):
             return VInt(v.n)
+        if type(v).__name__ == "VArrDec":
+            return VInt(v.n)
+        if isinstance(v, VObj) and v.cls == "ChunkList":
+            return VInt(self.cur_state_objs(v)["n"].t)
         raise OutOfSubset(f"line {line}: len of {v!r}")
 
     # ------------------------------------------------------------------ call dispatch
@@ -228,6 +238,8 @@ class CallMixin:
         if k == "builtin":
             return self.call_builtin(fn.ref, args, kwargs, st, line, node)
         if k == "model":
+            if fn.self_ is not None:
+                args = [fn.self_] + list(args)
             return self.models[fn.ref](self, st, args, kwargs, line)
         if k == "repo":
             return self.call_repo(fn.ref, None, args, kwargs, st, line)
@@ -280,6 +292,7 @@ class CallMixin:
                 return val(VRange(a[0], a[1], z3.IntVal(1), par))
             return val(VRange(a[0], a[1], a[2], par))
         if name == "len":
+            self._len_state = st
             return val(self.len_of(args[0], line))
         if name in ("min", "max"):
             items = args[0].items if len(args) == 1 and isinstance(args[0], (VList, VTuple)) else args
@@ -523,6 +536,14 @@ class CallMixin:
                 g = self.spec_bool(r, st)
                 self.oblig(st, f"pre@{short}#{n}", g, line, label=f"r{i}")
                 st.assume(g)
+            if c.key == self.cur_func and self.inline_depth == 0:
+                if c.decreases is None:
+                    raise OutOfSubset(f"line {line}: recursive call of {c.key} without a decreases clause")
+                callee_m = self.to_int(self.spec_val(c.decreases, st))
+                st.env = saved_env
+                caller_m = self.to_int(self.spec_val(c.decreases, st))
+                st.env = cenv
+                self.oblig(st, f"decreases@{line}", z3.And(callee_m >= 0, callee_m < caller_m), line)
             out = []
             cur = st
             for rz in c.raises:
@@ -653,6 +674,8 @@ class CallMixin:
             return VObj(oid, t.cls, t.file)
         if isinstance(t, Const):
             v = t.value
+            if isinstance(v, Const):
+                v = v.value
             if v is None:
                 return NONE
             if isinstance(v, bool):
@@ -745,11 +768,26 @@ class CallMixin:
                                 fields.add((v.oid, parts[-1]))
                 elif parts[0] in amap and len(parts) == 1:
                     self._mod_obj_of(amap[parts[0]], st, objs)
+        elif fn.kind == "model":
+            # library models that mutate their receiver / arguments
+            if isinstance(fn.self_, VObj) and fn.self_.oid in st.objs:
+                for f in list(st.objs[fn.self_.oid]):
+                    fields.add((fn.self_.oid, f))
+            for pos in MODEL_WRITES.get(fn.ref, ()):
+                if pos < len(n.args):
+                    self._mod_obj_of(n.args[pos], st, objs)
+            for kw in n.keywords:
+                if kw.arg == "out":
+                    self._mod_obj_of(kw.value, st, objs)
         elif fn.kind in ("arrmethod",) and fn.ref in ("fill", "sort"):
             if isinstance(fn.self_, VArr):
                 objs.add(fn.self_.obj)
         elif fn.kind == "listmethod" and fn.ref in ("append", "extend"):
             pass
+
+
+# argument positions (after the receiver) written by a library model
+MODEL_WRITES = {"FileIO.readinto": (0,)}
 
 
 class VOpaqueArr(V):
